@@ -184,3 +184,14 @@ Definition bcall_ok (b : bcall) : Prop :=
   | BVal key v => lenN key < 2 ^ 64 /\ tval_ok v
   | BRaw key v => lenN key < 2 ^ 64 /\ bytes_ok v
   end.
+
+(* the (key, canonical value) pair a builder method writes *)
+Definition bcall_pair (b : bcall) : bytes * bytes :=
+  match b with
+  | BIp4 a => (k_ip, enc_string a) | BIp6 a => (k_ip6, enc_string a)
+  | BTcp4 p => (k_tcp, enc_uint p) | BTcp6 p => (k_tcp6, enc_uint p)
+  | BUdp4 p => (k_udp, enc_uint p) | BUdp6 p => (k_udp6, enc_uint p)
+  | BClient strs => (k_client, enc_strings strs)
+  | BVal key v => (key, enc_tval v)
+  | BRaw key v => (key, v)
+  end.
